@@ -405,3 +405,52 @@ def zero_buffer_sweep(ck, fns, rule, floor):
                   else "a zero-initialised buffer is used without ever being written or borrowed mutably: the decoder returns zeros instead of the input", f.loc(bi))
     ck.floor(rule, "zero-initialised decoder buffers", n, floor)
     return n
+
+
+def natural_loops(f):
+    out = []
+    for b in f.reachable():
+        r = f.reach_from(f.succ(b))
+        if b in r:
+            out.append(set(x for x in r if b in f.reach_from(f.succ(x))) | {b})
+    return out
+
+
+# transcript entries of verifier-side functions that are made on some paths only, by protocol (function suffix -> labels, why)
+CONDITIONAL_TRANSCRIPT_OK = {
+    "bulletproofs::range_proof::verify_efficient": ({"G", "H", "v_keys", "n"}, "Version2 additions behind the version test"),
+    "bulletproofs::set_membership_proof::verify": ({"G", "H", "v_keys"}, "Version2 additions behind the version test"),
+    "bulletproofs::set_non_membership_proof::verify": ({"G", "H", "v_keys"}, "Version2 additions behind the version test"),
+    "id::id_verifier::verify_attribute_range": ({"AttributeRangeProof", "a", "b", "attribute_range_proof"}, "the two proof versions use different transcripts (match on the version)"),
+    "id::id_verifier::verify_value_equal_to_commitment": ({"keys", "C"}, "Version2 additions behind the version test"),
+}
+
+
+def conditional_transcript_sweep(ck, c, scope, rule="DOM", floor=1):
+    """Every entry a verifier-side function makes in the Fiat-Shamir transcript is made on every accepting path (entries in a
+    loop over a vector count per element), except the version-gated ones listed above: an entry behind a condition leaves
+    the challenge independent of that value whenever the condition fails."""
+    from vlib import transcript
+    n = 0
+    for p in sorted(c.paths()):
+        if not scope.search(p) or re.search(r"::tests?::|::test_|prove|prover|\{closure", p):
+            continue
+        for b in c.get_all(p):
+            f = Fn(b)
+            seq = transcript.sequence(f)
+            if not seq:
+                continue
+            acc, _ = f.accept_points()
+            lps = natural_loops(f)
+            cond = sorted(set(str(l) for (m, l, _, bi) in seq if not all(f.dominates(bi, a) for a in acc) and not any(bi in lp for lp in lps)))
+            allow, why = set(), ""
+            for suf, (labs, w) in CONDITIONAL_TRANSCRIPT_OK.items():
+                if p.endswith(suf):
+                    allow, why = labs, w
+            extra = [l for l in cond if l not in allow]
+            n += 1
+            ck.ob(rule, p, "transcript-entries-unconditional", not extra,
+                  ("all %d transcript entries are made on every accepting path" % len(seq)) + ((" except %s (%s)" % (sorted(cond), why)) if cond else "") if not extra else
+                  "transcript entries %s are made on some paths only: on the other paths the challenge does not depend on them" % extra, f.loc())
+    ck.floor(rule, "verifier-side functions that write the transcript", n, floor)
+    return n
